@@ -68,7 +68,12 @@ def install(interp, ns):
         if is_z3(x): return z3.ToReal(x) if z3.is_int(x) else x
         return float(x)
     def py_int(x):
-        if is_z3(x): return z3.ToInt(x) if z3.is_real(x) else x
+        if isinstance(x, SArr) and x.ndim == 0: x = x.get(())
+        if is_z3(x):
+            if not z3.is_real(x): return x
+            xs = z3.simplify(x)
+            if z3.is_app(xs) and xs.decl().kind() == z3.Z3_OP_TO_REAL: return xs.arg(0)          # int(float(k)) = k
+            return z3.If(x >= 0, z3.ToInt(x), -z3.ToInt(-x))                                     # int() truncates toward zero (ToInt is floor)
         return int(x)
     def py_abs(x): return A.elementwise(A.aabs)(x)
     def py_sum(xs, start=0):
